@@ -509,3 +509,137 @@ Proof.
       split; [reflexivity|]. apply negb_true_iff. exact H.
   - intros [[-> ->]|(v & -> & H)]; [reflexivity|]. rewrite H. apply orb_true_r.
 Qed.
+
+(* ------------------------------------------------------------------ *)
+(* Contains (C18): the answer as a function of the index and the backend's word *)
+
+Definition contains_proxy (c : cfg) (sz : Z) (b : bhas) : response :=
+  if c_proxy c && (sz <=? c_maxproxy c) then
+    match b with
+    | BHasYes fsz => if (fsz <=? c_maxproxy c) && negb (mismatch sz fsz) then Has true fsz else Has false (-1)
+    | BHasNo => Has false (-1)
+    end
+  else Has false (-1).
+
+Definition contains_fun (c : cfg) (l : LRU.state) (k : kind) (hash : string) (sz : Z) (b : bhas) : response :=
+  if negb (Z.of_nat (String.length hash) =? hashLen) then Has false (-1) else
+  if kind_eqb k CAS && (sz <=? 0) && String.eqb hash emptySha256 then Has true 0 else
+  match peek (lookup_key k hash) l with
+  | Some v => if negb (mismatch sz (size v)) then Has true (size v) else contains_proxy c sz b
+  | None => contains_proxy c sz b
+  end.
+
+Lemma tstep_has_start c d k hash sz b h tm :
+  tstep c d (mkThread (RContains k hash sz b) HasStart h tm) =
+  let req := RContains k hash sz b in
+  if negb (Z.of_nat (String.length hash) =? hashLen) then Some (d, mkThread req (Done (Has false (-1))) h tm) else
+  if kind_eqb k CAS && (sz <=? 0) && String.eqb hash emptySha256 then Some (d, mkThread req (Done (Has true 0)) h tm) else
+  let '(l', g) := LRU.get (lookup_key k hash) (lru d) in
+  match g with
+  | Some (v, _) =>
+      if negb (mismatch sz (size v)) then Some (set_lru l' d, mkThread req (Done (Has true (size v))) h tm)
+      else Some (set_lru l' d, mkThread req HasProxy h tm)
+  | None => Some (set_lru l' d, mkThread req HasProxy h tm)
+  end.
+Proof. reflexivity. Qed.
+
+Lemma tstep_has_proxy c d k hash sz b h tm :
+  tstep c d (mkThread (RContains k hash sz b) HasProxy h tm) =
+  Some (d, mkThread (RContains k hash sz b) (Done (contains_proxy c sz b)) h tm).
+Proof.
+  unfold contains_proxy. cbn. destruct (c_proxy c && (sz <=? c_maxproxy c)); [|reflexivity].
+  destruct b as [|fsz]; [reflexivity|]. destruct ((fsz <=? c_maxproxy c) && negb (mismatch sz fsz)); reflexivity.
+Qed.
+
+Theorem exec_contains c d k hash sz b : Inv (lru d) ->
+  exists d', exec c d (RContains k hash sz b) = (d', Some (contains_fun c (lru d) k hash sz b)) /\ fm_frame d d'.
+Proof.
+  intros HI. unfold exec.
+  change (spawn (RContains k hash sz b)) with (mkThread (RContains k hash sz b) HasStart 0 None).
+  change (fuel_for (RContains k hash sz b)) with (S (S 22)).
+  rewrite run_thread_S, tstep_has_start. unfold contains_fun. cbv zeta.
+  assert (Hsame : fm_frame d d) by (apply fm_frame_of; [exact HI|apply same_refl|reflexivity|reflexivity]).
+  destruct (negb (Z.of_nat (String.length hash) =? hashLen)).
+  { erewrite run_done by reflexivity. exists d. split; [reflexivity|exact Hsame]. }
+  destruct (kind_eqb k CAS && (sz <=? 0) && String.eqb hash emptySha256).
+  { erewrite run_done by reflexivity. exists d. split; [reflexivity|exact Hsame]. }
+  pose proof (get_same (lookup_key k hash) (lru d) HI) as HG.
+  destruct (LRU.get (lookup_key k hash) (lru d)) as [l' g]. destruct HG as (HI' & HS & Hg).
+  assert (Hfr : fm_frame d (set_lru l' d)) by (apply fm_frame_of; [exact HI'|exact HS|reflexivity|reflexivity]).
+  unfold peek. subst g. destruct (find_key (lookup_key k hash) (order (lru d))) as [e|].
+  - destruct (negb (mismatch sz (size (evalue (ent e))))).
+    + erewrite run_done by reflexivity. exists (set_lru l' d). split; [reflexivity|exact Hfr].
+    + rewrite run_thread_S, tstep_has_proxy. erewrite run_done by reflexivity.
+      exists (set_lru l' d). split; [reflexivity|exact Hfr].
+  - rewrite run_thread_S, tstep_has_proxy. erewrite run_done by reflexivity.
+    exists (set_lru l' d). split; [reflexivity|exact Hfr].
+Qed.
+
+Lemma contains_proxy_true c sz b x :
+  contains_proxy c sz b = Has true x <->
+  c_proxy c = true /\ sz <= c_maxproxy c /\ b = BHasYes x /\ x <= c_maxproxy c /\ mismatch sz x = false.
+Proof.
+  unfold contains_proxy. split.
+  - destruct (c_proxy c && (sz <=? c_maxproxy c)) eqn:E; [|discriminate].
+    apply andb_true_iff in E as [E1 E2]. destruct b as [|fsz]; [discriminate|].
+    destruct ((fsz <=? c_maxproxy c) && negb (mismatch sz fsz)) eqn:E3; [|discriminate].
+    apply andb_true_iff in E3 as [E3 E4]. apply negb_true_iff in E4.
+    intros H; inversion H; subst. repeat split; try assumption; lia.
+  - intros (-> & H1 & -> & H2 & ->). assert (E1 : (sz <=? c_maxproxy c) = true) by lia.
+    assert (E2 : (x <=? c_maxproxy c) = true) by lia. rewrite E1, E2. reflexivity.
+Qed.
+
+(* the key is in the local index with a compatible size *)
+Definition local_entry (l : LRU.state) (k : kind) (hash : string) (sz : Z) (x : Z) : Prop :=
+  exists v, peek (lookup_key k hash) l = Some v /\ mismatch sz (size v) = false /\ x = size v.
+
+(* C18: "present" is answered exactly for the empty blob, a local entry of compatible size, or —
+   only when nothing local answers — a backend object within max_proxy_blob_size, asked only for
+   requests within it, whose size is compatible *)
+Theorem contains_true_iff c l k hash sz b x :
+  contains_fun c l k hash sz b = Has true x <->
+  Z.of_nat (String.length hash) = hashLen /\
+  ((k = CAS /\ sz <= 0 /\ hash = emptySha256 /\ x = 0) \/
+   (~ (k = CAS /\ sz <= 0 /\ hash = emptySha256) /\
+    (local_entry l k hash sz x \/
+     ((forall y, ~ local_entry l k hash sz y) /\
+      c_proxy c = true /\ sz <= c_maxproxy c /\ b = BHasYes x /\ x <= c_maxproxy c /\ mismatch sz x = false)))).
+Proof.
+  unfold contains_fun, local_entry.
+  destruct (negb (Z.of_nat (String.length hash) =? hashLen)) eqn:E0.
+  { apply negb_true_iff in E0. split; [discriminate|]. intros [H _]. lia. }
+  apply negb_false_iff in E0.
+  destruct (kind_eqb k CAS && (sz <=? 0) && String.eqb hash emptySha256) eqn:E1.
+  { apply andb_true_iff in E1 as [E1 E3]. apply andb_true_iff in E1 as [E1 E2]. apply String.eqb_eq in E3.
+    assert (Hk : k = CAS) by (destruct k; try discriminate; reflexivity).
+    split.
+    - intros H; inversion H; subst. split; [lia|]. left. repeat split; try reflexivity; lia.
+    - intros [_ [(_ & _ & _ & ->)|[Hn _]]]; [reflexivity|]. exfalso. apply Hn. repeat split; try assumption; lia. }
+  assert (HS : ~ (k = CAS /\ sz <= 0 /\ hash = emptySha256)).
+  { intros (-> & H2 & ->). cbn in E1. assert (E : (sz <=? 0) = true) by lia. rewrite E in E1. discriminate. }
+  destruct (peek (lookup_key k hash) l) as [v|].
+  - destruct (mismatch sz (size v)) eqn:E2; cbn [negb].
+    + rewrite contains_proxy_true. split.
+      * intros H. split; [lia|]. right. split; [exact HS|]. right. split; [|exact H].
+        intros y (v' & Hv & Hm & _). inversion Hv; subst. congruence.
+      * intros [_ [(H1 & H2 & H3 & _)|[_ [(v' & Hv & Hm & _)|[_ H]]]]]; [exfalso; apply HS; tauto| |exact H].
+        inversion Hv; subst. congruence.
+    + split.
+      * intros H; inversion H; subst. split; [lia|]. right. split; [exact HS|]. left. exists v. repeat split. exact E2.
+      * intros [_ [(H1 & H2 & H3 & _)|[_ [(v' & Hv & Hm & ->)|[Hn _]]]]]; [exfalso; apply HS; tauto| |].
+        -- inversion Hv; subst. reflexivity.
+        -- exfalso. apply (Hn (size v)). exists v. repeat split. exact E2.
+  - rewrite contains_proxy_true. split.
+    + intros H. split; [lia|]. right. split; [exact HS|]. right. split; [|exact H].
+      intros y (v' & Hv & _). discriminate.
+    + intros [_ [(H1 & H2 & H3 & _)|[_ [(v' & Hv & _)|[_ H]]]]]; [exfalso; apply HS; tauto|discriminate|exact H].
+Qed.
+
+(* in particular an object above max_proxy_blob_size, or any object for a request above it, is never
+   reported present on the backend's word *)
+Corollary contains_oversize_never_from_backend c l k hash sz b x :
+  contains_fun c l k hash sz b = Has true x -> (x > c_maxproxy c \/ sz > c_maxproxy c) ->
+  (k = CAS /\ sz <= 0 /\ hash = emptySha256 /\ x = 0) \/ local_entry l k hash sz x.
+Proof.
+  intros H Hx. apply contains_true_iff in H as [_ [H|[_ [H|(_ & _ & H1 & _ & H2 & _)]]]]; [left; exact H|right; exact H|lia].
+Qed.
